@@ -18,9 +18,9 @@ RULE = ('cases = random flat machines (2-6 states, plain or Enum states, labels,
         'lists) and hierarchical machines (2-4 top-level states, nesting depth <= 3, initial substates, parallel '
         'states in the cases without events) with 1-8 transitions (1-4 triggers, internal / reflexive ones, '
         'conditions / unless with fixed values, custom labels), display options show_conditions / '
-        'show_auto_transitions / show_state_attributes drawn independently, any state as initial, and a history '
+        'show_auto_transitions / show_state_attributes drawn independently, auto_transitions off in 35 %, any state as initial, and a history '
         'of 0-7 steps: model.trigger(event) (known triggers, to_<state>, unknown names), add_states (top level, '
-        'leaf or compound), add_transition, remove_transition (with and without source/dest filters); in 40 % of '
+        'leaf or compound; 45 % as one call with a list: that state first, then 1-2 further states), add_transition, remove_transition (with and without source/dest filters); in 40 % of '
         'the cases with events (non-Enum, all states simple) 1-3 on_enter callbacks fire follow-up events from inside '
         'the callback (chains A -e1-> B, on_enter of B fires e2, B -e2-> C; budget 1-3 per call; also in on_exit lists, '
         'and callbacks that regenerate the graph); 30 % of all cases use the async, 20 % the locked graph machine classes; every 9th '
@@ -39,8 +39,9 @@ ASSUMPTIONS = ['only the Mermaid backend exists in this sandbox (python modules 
                'classified only for the oracle clause "styled active but not current" directly after an event and never for '
                'a model/implementation disagreement',
                '30 % of the cases run on AsyncGraphMachine / HierarchicalAsyncGraphMachine (asyncio.run around every '
-               'trigger, plain callbacks only: an async machine runs a callback list concurrently and follow-up events need '
-               'coroutine callbacks - task scheduling is C08\'s subject; no custom transition labels: AsyncTransition has no '
+               'trigger; an async machine runs the callbacks of one list concurrently, so a follow-up-event callback - a coroutine '
+               'awaiting model.trigger - is the only callback of its list there (length 1 = sequential); task scheduling of '
+               'longer lists is C08\'s subject; no custom transition labels: AsyncTransition has no '
                'label keyword; compound states added after construction are in the envelope for every class since D43); '
                '20 % of the cases run on LockedGraphMachine / LockedHierarchicalGraphMachine '
                '(same synchronous runner, one thread)',
@@ -51,7 +52,7 @@ ASSUMPTIONS = ['only the Mermaid backend exists in this sandbox (python modules 
 THEOREMS = ['C16_states_once', 'C16_nesting', 'C16_parallel_separated', 'C16_edges', 'C16_edges_user',
             'C16_edges_only', 'C16_label', 'C16_marks', 'C16_styles', 'C16_styles_exit_refuted',
             'C16_styles_regen_refuted', 'C16_roi',
-            'C16_refresh', 'C16_added_state', 'C16_added_transition', 'C16_removed_transition', 'C16_example_wf',
+            'C16_refresh', 'C16_added_state', 'C16_added_states', 'C16_added_transition', 'C16_removed_transition', 'C16_example_wf',
             'C16_example_nested']
 
 REPO = os.environ.get('VERIF_REPO', '/repo')
@@ -163,7 +164,7 @@ def gen(rng, i, tier):
     trans = [_trans(rng, paths, val) for _ in range(rng.randint(1, 16 if wide else 8))]
     opts = dict(conds=rng.random() < 0.5, auto=rng.random() < 0.25, attrs=rng.random() < 0.35)
     case = dict(kind='hsm' if hsm else 'flat', enum=use_enum, opts=opts, states=forest, trans=trans,
-                initial=rng.choice(paths), ops=[], val=val, acts={}, budget=0, regen=[],
+                initial=rng.choice(paths), ops=[], val=val, acts={}, budget=0, regen=[], autos=rng.random() >= 0.35,
                 cls=_pick_cls(rng.random()))
     if nested:
         _add_acts(rng, case, val)
@@ -191,7 +192,13 @@ def gen(rng, i, tier):
             if nested and rng.random() < 0.4:
                 nd['enter'].insert(rng.randint(0, len(nd['enter'])), rng.choice(sorted(case['acts']) or ACT_CBS[:1]))
             cur_forest.append(nd)
-            case['ops'].append(['adds', nd])
+            if rng.random() < 0.45 and len(ids) > 6:
+                # one add_states call with a list: the (possibly compound) state first, then further states
+                more = [_node(rng, ids, 1, False, False) for _ in range(rng.randint(1, 2))]
+                cur_forest.extend(more)
+                case['ops'].append(['addsl', [nd] + more])
+            else:
+                case['ops'].append(['adds', nd])
         elif r < 0.9 or not cur_trans:
             t = _trans(rng, paths, val)
             cur_trans.append(t)
@@ -209,6 +216,11 @@ def gen(rng, i, tier):
     return _fit_class(case)
 
 
+def _added(o):
+    """top-level states an op adds"""
+    return [o[1]] if o[0] == 'adds' else (list(o[1]) if o[0] == 'addsl' else [])
+
+
 def _pick_cls(r):
     """machine class family: asyncio 30 %, locked 20 %, plain 50 %"""
     return 'async' if r < 0.3 else ('locked' if r < 0.5 else 'sync')
@@ -222,12 +234,12 @@ def _fit_class(case):
             t['label'] = None
         # an async machine runs the callbacks of one list concurrently (asyncio.gather) and a follow-up event has to
         # be awaited from a coroutine callback: task scheduling / cancellation is C08's subject, not modelled here.
-        # Async cases keep plain callbacks only (no-ops and graph-regenerating ones).
-        for nd in _all_nodes(case['states']) + [n for o in case['ops'] if o[0] == 'adds' for n in _all_nodes([o[1]])]:
+        # A list of length 1 is sequential: a callback list that holds a follow-up callback is cut down to that one.
+        for nd in _all_nodes(case['states']) + [n for o in case['ops'] for a in _added(o) for n in _all_nodes([a])]:
             for key in ('enter', 'exit'):
-                nd[key] = [c for c in nd[key] if c not in case['acts']]
-        case['acts'] = {}
-        case['budget'] = 0
+                acting = [c for c in nd[key] if c in case['acts']]
+                if acting:
+                    nd[key] = acting[:1]
     return case
 
 
@@ -268,6 +280,10 @@ def _add_acts(rng, case, val):
             nd[key].insert(rng.randint(0, len(nd[key])), cb)
     if rng.random() < 0.5:
         case['initial'] = rng.choice([t['src'] for t in trans])
+    if rng.random() < 0.6:
+        # start in the source of the last chain and fire it first
+        case['initial'] = t1['src']
+        case['ops'].append(['ev', t1['trig']])
 
 
 # ------------------------------------------------------------------ encoding for the model
@@ -295,6 +311,8 @@ def enc_op(o):
         return [0, _s(o[1])]
     if o[0] == 'adds':
         return [1, enc_node(o[1])]
+    if o[0] == 'addsl':
+        return [4, [enc_node(n) for n in o[1]]]
     if o[0] == 'addt':
         return [2, enc_trans(o[1])]
     return [3, _s(o[1]), _opt(o[2], lambda d: d), _opt(o[3], lambda d: d)]
@@ -302,7 +320,7 @@ def enc_op(o):
 
 def enc(case):
     o = case['opts']
-    return [[o['conds'], o['auto'], o['attrs'], case['kind'] == 'hsm', bool(case['enum'])],
+    return [[o['conds'], o['auto'], o['attrs'], case['kind'] == 'hsm', bool(case['enum']), bool(case.get('autos', True))],
             [enc_node(n) for n in case['states']], [enc_trans(t) for t in case['trans']],
             case['initial'], [enc_op(x) for x in case['ops']],
             [[_s(c), _s(e)] for c, e in sorted(case.get('acts', {}).items())], case.get('budget', 0),
@@ -525,6 +543,7 @@ def impl(case):
     states = en if en is not None else [_state_cfg(nd, hsm) for nd in case['states']]
     kw = dict(model=model, states=states, initial=sref(case['initial']),
               transitions=[tcfg(t) for t in case['trans']], graph_engine='mermaid',
+              auto_transitions=bool(case.get('autos', True)),
               show_conditions=o['conds'], show_auto_transitions=o['auto'], show_state_attributes=o['attrs'])
     machine = (HsmM if hsm else FlatM)(**kw)
 
@@ -550,6 +569,9 @@ def impl(case):
         elif op[0] == 'adds':
             names.forest.append(copy.deepcopy(op[1]))
             machine.add_states(_state_cfg(op[1], hsm))
+        elif op[0] == 'addsl':
+            names.forest.extend(copy.deepcopy(op[1]))
+            machine.add_states([_state_cfg(nd, hsm) for nd in op[1]])
         elif op[0] == 'addt':
             machine.add_transition(**tcfg(op[1]))
         else:
@@ -589,7 +611,7 @@ def in_envelope(case):
     # events only on machines without parallel states; unique sibling texts by construction
     def has_par(forest):
         return any(nd['par'] or has_par(nd['kids']) for nd in forest)
-    forests = [case['states']] + [[o[1]] for o in case['ops'] if o[0] == 'adds']
+    forests = [case['states']] + [_added(o) for o in case['ops']]
     if any(o[0] == 'ev' for o in case['ops']) and any(has_par(f) for f in forests):
         return False
     acts = case.get('acts', {})
@@ -605,8 +627,7 @@ def _top(case, k):
     """top-level ids after the first k ops"""
     ids = [nd['id'] for nd in case['states']]
     for o in case['ops'][:k]:
-        if o[0] == 'adds':
-            ids.append(o[1]['id'])
+        ids += [nd['id'] for nd in _added(o)]
     return ids
 
 
@@ -625,7 +646,7 @@ def classify_known(case, model_obs, impl_obs):
     msg, kind, k, state = _oracle(case, canon(case, impl_obs))
     if kind != 'stale-active' or k == 0 or case['ops'][k - 1][0] != 'ev':
         return None
-    forests = [case['states']] + [[o[1]] for o in case['ops'][:k - 1] if o[0] == 'adds']
+    forests = [case['states']] + [_added(o) for o in case['ops'][:k - 1]]
     nodes = [nd for f in forests for nd in _all_nodes(f)]
     acts, regen = case.get('acts', {}), case.get('regen', [])
     exit_act = any(c in acts for nd in nodes for c in nd['exit'])
@@ -688,11 +709,17 @@ def stats(case, obs, dist):
     if case.get('regen'):
         inc('with_regenerating_callbacks')
     inc('class_' + case.get('cls', 'sync'))
+    if not case.get('autos', True):
+        inc('auto_transitions_off')
+    if case.get('cls') == 'async' and case.get('acts'):
+        inc('async_with_follow_up_callbacks')
     for k in ('conds', 'auto', 'attrs'):
         if case['opts'][k]:
             inc('opt_' + k)
     for o in case['ops']:
         inc('op_' + o[0])
+        if o[0] == 'addsl' and o[1][0]['kids']:
+            inc('add_states_list_compound_first')
     inc('states_total', len(_paths(case['states'])))
     inc('transitions_total', len(case['trans']))
     if any(nd['par'] for nd in _all_nodes(case['states'])):
